@@ -18,10 +18,20 @@ pub trait StrExt {
 
 impl StrExt for str {
     fn has_linebreak(&self) -> bool {
-        self.contains('\n')
+        // Typst also treats CR, VT, FF, NEL, LS and PS as newlines.
+        self.contains(typst_syntax::is_newline)
     }
 
     fn count_linebreaks(&self) -> usize {
-        self.chars().filter(|c| *c == '\n').count()
+        let mut count = 0;
+        let mut prev_cr = false;
+        for c in self.chars() {
+            // CRLF counts as one.
+            if typst_syntax::is_newline(c) && !(c == '\n' && prev_cr) {
+                count += 1;
+            }
+            prev_cr = c == '\r';
+        }
+        count
     }
 }
